@@ -216,7 +216,7 @@ def main(argv):
         print(f"  family={v['family']} clause={v['clause']} signature={json.dumps(v['signature'], default=repr)}")
         print(f"  detail: {v['detail'][:600]}")
     for u in agg['unconfirmed']:
-        print(f"NOTE unconfirmed (did not recur on re-run, not reported): family={u['family']} clause={u['clause']}", file=sys.stderr)
+        print(f"NOTE unconfirmed (did not recur on re-run, not reported): family={u['family']} clause={u['clause']} detail={u.get('detail', '')[:300]!r} params={json.dumps(u.get('params'), default=repr)[:400]}", file=sys.stderr)
 
     head, diff = repo_state()
     wall = time.monotonic() - t0
